@@ -902,7 +902,9 @@ class AbstractExcelInPython(ABC):
         # с помощью найденного выше метода, если же не найден и метод, возвращаем "пустую ячейку"
         if cell_uid in self._arguments:
             # an overridden cell is a constant now: its formula must not run (and must not fail) any more
-            return self._arguments[cell_uid]
+            value = self._arguments[cell_uid]
+            # an override without a value clears the cell: it is blank now
+            return self.EmptyCell() if value is None else value
 
         return method(self) if method else self.EmptyCell()
 
